@@ -175,6 +175,7 @@ type sut struct {
 	lastCreated int32
 	env         map[int]*envelope
 
+	last  map[int64]saveReq // entity id -> the request that produced its current version (the stored payload)
 	flags map[string]bool
 }
 
@@ -198,7 +199,7 @@ func openSut(h *verifx.H, maxBudget int64, step uint32, bonus, globalBudget int6
 	}
 	x := &sut{h: h, dir: dir, now: now, ctx: context.Background(), maxBudget: maxBudget, step: step, bonus: bonus, globalBudget: globalBudget,
 		cur: map[int64]int64{}, typ: map[int64]int32{}, nm: map[int64]string{}, nsName: map[int64]string{},
-		versions: map[int64]bool{}, shadow: map[string]int32{}, everID: map[int32]bool{}, env: map[int]*envelope{}, flags: map[string]bool{}}
+		versions: map[int64]bool{}, shadow: map[string]int32{}, everID: map[int32]bool{}, env: map[int]*envelope{}, last: map[int64]saveReq{}, flags: map[string]bool{}}
 	x.open()
 	h.Op("cfg %d %d %d %d", maxBudget, step, bonus, globalBudget)
 	return x
@@ -354,6 +355,7 @@ func (x *sut) observeSave(a saveReq, e tlmetadata.Event, err error) {
 		h.Stat("save.ok.namespaced", 1)
 	}
 	x.cur[e.Id] = e.Version
+	x.last[e.Id] = a
 	x.nm[e.Id] = a.n.str()
 }
 
@@ -814,7 +816,7 @@ func (x *sut) randName(r *verifx.Rng, typ int32) name {
 }
 
 func randTyp(r *verifx.Rng) int32 {
-	return []int32{0, 0, 0, 0, 2, 2, 4, 4, 4, 1, 3, 5}[r.Intn(12)]
+	return []int32{0, 0, 0, 0, 2, 2, 4, 4, 4, 1, 1, 3, 5}[r.Intn(13)]
 }
 
 func parseStrName(s string) name {
@@ -834,7 +836,7 @@ func entityOp(x *sut, r *verifx.Rng, big bool) {
 		return n
 	}
 	tag := r.Intn(100)
-	kind := r.Pick(22, 22, 10, 14, 6, 5, 9, 5, 10)
+	kind := r.Pick(22, 22, 10, 14, 6, 5, 9, 5, 10, 12)
 	if len(ids) == 0 && kind != 6 {
 		kind = 0
 	}
@@ -936,6 +938,20 @@ func entityOp(x *sut, r *verifx.Rng, big bool) {
 		a := saveReq{n: parseStrName(x.nm[id]), dtag: tag, dlen: dl(tag), create: true, typ: x.typ[id], meta: r.Intn(4)}
 		x.h.Stat("gen.create-dup", 1)
 		x.save(a)
+	case 9: // re-save an entity UNCHANGED (same name, data, delete time) — every type; still an edit: new version, history, journal
+		id := ids[r.Intn(len(ids))]
+		a, ok := x.last[id]
+		if !ok {
+			return
+		}
+		a.id, a.create, a.oldVersion, a.meta = id, false, x.cur[id], r.Intn(4)
+		x.h.Stat("gen.resave-unchanged", 1)
+		x.h.Stat(fmt.Sprintf("gen.resave-unchanged.type%d", a.typ), 1)
+		x.save(a)
+		if r.Chance(1, 2) { // the same request again: its version is stale now and must be refused
+			x.h.Stat("gen.resave-unchanged.stale-repeat", 1)
+			x.save(a)
+		}
 	case 8: // reads
 		switch r.Intn(4) {
 		case 0:
@@ -1038,7 +1054,7 @@ func raceC15(h *verifx.H, r *verifx.Rng) {
 		x.tick(r)
 		typ := []int32{0, 0, 2, 4, 1}[r.Intn(5)]
 		var a saveReq
-		kind := r.Intn(3)
+		kind := r.Intn(4)
 		ids := knownIDs(x)
 		switch {
 		case kind == 0 || len(ids) == 0: // racing creates of the same name
@@ -1051,6 +1067,15 @@ func raceC15(h *verifx.H, r *verifx.Rng) {
 				a.n = name{0, r.Range(7, 9)}
 			}
 			h.Stat("race.edit", 1)
+		case kind == 3: // racing re-saves that change NOTHING (payload identical to the stored row): still exactly one winner
+			id := ids[r.Intn(len(ids))]
+			if l, ok := x.last[id]; ok {
+				a = l
+				a.id, a.create, a.oldVersion, a.meta = id, false, x.cur[id], 2
+			} else {
+				a = saveReq{n: parseStrName(x.nm[id]), id: id, oldVersion: x.cur[id], typ: x.typ[id], dtag: r.Intn(100), dlen: 4, meta: 2}
+			}
+			h.Stat("race.resave-unchanged", 1)
 		default: // racing edits from a stale version: nobody may win
 			id := ids[r.Intn(len(ids))]
 			a = saveReq{n: parseStrName(x.nm[id]), id: id, oldVersion: x.cur[id] + 1, typ: x.typ[id], dtag: r.Intn(100), dlen: 4, meta: 3}
